@@ -331,7 +331,7 @@ fn recursion_inventory(cx: &mut Ctx, facts: &Facts) {
     // the cycle is cut: nested >= 2 early return, and the re-entry passes the field text
     if let Ok(s) = sm::load(&cx.repo, "parser/src/string.rs") {
         let t = sm::tsx(&s.file);
-        let cut = t.contains("fnparse_fstring(&mutself,nested:u8)->Result<Vec<Expr>,LexicalError>{useFStringErrorType::*;ifnested>=2{returnErr(FStringError::new(ExpressionNestedTooDeeply,self.get_pos()).into());}");
+        let cut = t.contains("fnparse_fstring(&mutself,nested:u8)->Result<Vec<Expr>,LexicalError>{useFStringErrorType::*;if2<=nested{returnErr(FStringError::new(ExpressionNestedTooDeeply,self.get_pos()).into());}");
         let up = t.contains("letparsed_expr=self.parse_fstring(nested+1)?;") && t.contains("letparsed_values=self.parse_formatted_value(nested)?;") && t.contains("letparsed_spec=self.parse_spec(nested)?;") && t.contains("self.parse_fstring(0)");
         if cut && up {
             cx.ok(rule, "f-string recursion: parse_fstring returns early for nested >= 2; the depth only grows by the literal + 1 in parse_spec and starts at 0");
@@ -610,14 +610,19 @@ pub fn check_dominance_cfg(block: &syn::Block, fname: &str, unwrap_recv: &str, c
             }
             syn::Expr::Match(m) => {
                 let scrut = sm::tsc(&m.expr);
-                let on_window = scrut == "self.window[0]" || scrut == "self.peek()";
+                let on_window = scrut == "self.window[0]" || scrut == "self.peek()" || scrut == format!("{}.peek()", w.ck.consumer.0);
                 let mut out = true;
                 let mut any_fallthrough = false;
                 for arm in &m.arms {
                     let pat = sm::tsc(&arm.pat);
                     let arm_known = if on_window { pat.starts_with("Some(") && !pat.contains("None") } else { known };
                     let b = sm::tsc(&arm.body);
-                    let diverges = b.starts_with("{return") || b.starts_with("return") || b == "break" || b == "continue" || b.starts_with("{letend_pos=self.get_pos();return");
+                    let last_diverges = match &*arm.body {
+                        syn::Expr::Block(bb) => matches!(bb.block.stmts.last(), Some(syn::Stmt::Expr(syn::Expr::Return(_) | syn::Expr::Break(_) | syn::Expr::Continue(_), _))),
+                        syn::Expr::Return(_) | syn::Expr::Break(_) | syn::Expr::Continue(_) => true,
+                        _ => false,
+                    };
+                    let diverges = last_diverges || b.starts_with("{return") || b.starts_with("return") || b == "break" || b == "continue";
                     let k = go_expr(w, &arm.body, arm_known);
                     if !diverges {
                         any_fallthrough = true;
@@ -707,9 +712,17 @@ fn discharge_some(cx: &mut Ctx) {
         if ty == "Lexer" {
             // predicate summaries
             let t = sm::tsx(&src.file);
-            let pred1 = t.contains("fnis_identifier_continuation(&self)->bool{matchself.window[0]{Some('a'..='z'|'A'..='Z'|'_'|'0'..='9')=>true,Some(c)=>is_xid_continue(c),_=>false,}}");
+            let pred1 = match crate::rules::lexer_rules::lexer_method(&src, "is_identifier_continuation") {
+                Some(f) => {
+                    let methods = |_: &crate::eval::V, _: &str, _: &[crate::eval::V]| -> Option<crate::eval::V> { None };
+                    let mut m = crate::eval::Machine::new(&methods);
+                    m.set("self.window[0]", crate::eval::V::Opt(None));
+                    matches!(m.eval_block(&f.block), Ok(crate::eval::V::Bool(false)))
+                }
+                None => false,
+            };
             if pred1 {
-                cx.ok(rule, "is_identifier_continuation() is true only for Some(..)");
+                cx.ok(rule, "is_identifier_continuation() interpreted at end of input (window[0] = None) is false");
             } else {
                 cx.fail(rule, &format!("{}/summary/is_identifier_continuation", rule), rel, "is_identifier_continuation may be true for None");
             }
@@ -723,8 +736,8 @@ fn discharge_some(cx: &mut Ctx) {
                 }
             }
             // D.prefix: lex_string call sites
-            let prefix_ok = t.contains("[Some(c),Some('\"'|'\\''),..]=>{ifletOk(kind)=StringKind::try_from(c){returnself.lex_string(kind);}}")
-                && t.contains("[Some(c1),Some(c2),Some('\"'|'\\'')]=>{ifletOk(kind)=StringKind::try_from([c1,c2]){returnself.lex_string(kind);}}")
+            let prefix_ok = t.contains("[Some(c),Some('\"'|'\\''),..]=>{matchStringKind::try_from(c){Ok(kind)=>{returnself.lex_string(kind);},_=>{},}}")
+                && t.contains("[Some(c1),Some(c2),Some('\"'|'\\'')]=>{matchStringKind::try_from([c1,c2]){Ok(kind)=>{returnself.lex_string(kind);},_=>{},}}")
                 && t.contains("'\"'|'\\''=>{letstring=self.lex_string(StringKind::String)?;")
                 && t.matches("self.lex_string(").count() == 3;
             if prefix_ok {
@@ -733,9 +746,51 @@ fn discharge_some(cx: &mut Ctx) {
                 cx.fail(rule, &format!("{}/lex_string-callers", rule), rel, "a lex_string call site does not establish the quote character at window[prefix_len]: `let quote_char = self.next_char().unwrap()` can panic");
             }
             // D.entry: consume_character is only called under if let Some(c) = self.window[0]
-            let entry_ok = t.contains("ifletSome(c)=self.window[0]{ifself.is_identifier_start(c){letidentifier=self.lex_identifier()?;self.emit(identifier);}else{self.consume_character(c)?;}}") && t.matches("self.consume_character(").count() == 1 && t.matches(".eat_single_char(").count() == 9;
+            // consume_character(c) is called once, in the Some(c) branch of a decision on window[0], with that c
+            let mut cc_ok = false;
+            if let Some(cn) = crate::rules::lexer_rules::lexer_method(&src, "consume_normal") {
+                sm::for_each_expr_in_block(&cn.block, |e| {
+                    if let Some((scrut, brs)) = crate::rules::lexer_rules::branches(e) {
+                        if scrut == "self.window[0]" {
+                            for b in &brs {
+                                if let crate::rules::lexer_rules::CPat::AnySome(Some(name)) = &b.pat {
+                                    let body: String = b.body.iter().map(|s| sm::tsc(*s)).collect();
+                                    if body.contains(&format!("self.consume_character({})", name)) {
+                                        cc_ok = true;
+                                    }
+                                }
+                            }
+                        }
+                    }
+                });
+            }
+            // every eat_single_char call site is reached by the arm interpreter with a character established
+            let mut esc_sites: BTreeSet<usize> = BTreeSet::new();
+            for (f, _) in crate::rules::lexer_rules::lexer_methods(&src) {
+                sm::for_each_expr_in_block(&f.block, |e| {
+                    if let syn::Expr::MethodCall(mc) = e {
+                        if mc.method == "eat_single_char" {
+                            esc_sites.insert(sm::line(mc.method.span()));
+                        }
+                    }
+                });
+            }
+            let mut reached: BTreeSet<usize> = BTreeSet::new();
+            let mut unestablished = false;
+            if let Some((_, m)) = crate::rules::lexer_rules::consume_character_arms(&src) {
+                for arm in &m.arms {
+                    let (_c, res) = crate::rules::lexer_rules::interp_arm(arm);
+                    for em in &res.emits {
+                        reached.insert(em.line);
+                    }
+                    if res.unrecognised.iter().any(|u| u.contains("no character established")) {
+                        unestablished = true;
+                    }
+                }
+            }
+            let entry_ok = cc_ok && t.matches("self.consume_character(").count() == 1 && !esc_sites.is_empty() && esc_sites.is_subset(&reached) && !unestablished;
             if entry_ok {
-                cx.ok(rule, "D.entry: consume_character(c) is called only under `if let Some(c) = self.window[0]`; eat_single_char only from its arms (9 call sites)");
+                cx.ok(rule, &format!("D.entry: consume_character(c) is called only in the Some(c) branch of the decision on window[0]; all {} eat_single_char call sites are reached by the arm interpreter with a character established", esc_sites.len()));
             } else {
                 cx.fail(rule, &format!("{}/entry", rule), rel, "consume_character / eat_single_char are reachable without a character established in window[0] (unreachable_unchecked would be undefined behaviour)");
             }
@@ -746,7 +801,7 @@ fn discharge_some(cx: &mut Ctx) {
 fn discharge_constants(cx: &mut Ctx) {
     let rule = "C03.D.const";
     cx.rule(rule, "D.idx / D.hex / D.octal / D.guard / D.lenmatch: window indices are literals below the window size 3; parse_unicode_literal is only called with literal digit counts <= 8; the octal reader takes at most 3 digits into a u32; the unicode-name length test precedes the table lookup; length-dependent indexing sits in the arm that fixes the length");
-    cx.floor(rule, 6);
+    cx.floor(rule, 5);
     if let Ok(lx) = sm::load(&cx.repo, "parser/src/lexer.rs") {
         let mut bad = vec![];
         let mut n = 0;
@@ -786,11 +841,8 @@ fn discharge_constants(cx: &mut Ctx) {
         } else {
             cx.fail(rule, &format!("{}/hex-digits", rule), &s.rel, &format!("parse_unicode_literal call arguments are {:?}: with more than 8 digits the shift / sum overflows u32", calls));
         }
-        if t.contains("ifname.len()>MAX_UNICODE_NAME{returnErr(LexicalError::new(LexicalErrorType::UnicodeError,self.get_pos(),));}unicode_names2::character(&name)") && t.contains("constMAX_UNICODE_NAME:usize=88;") {
-            cx.ok(rule, "D.guard: the name-length test (88) precedes unicode_names2::character");
-        } else {
-            cx.fail(rule, &format!("{}/unicode-name-guard", rule), &s.rel, "unicode_names2::character is called without the preceding MAX_UNICODE_NAME length test");
-        }
+        // (the \\N{name} length test is not a panic discharge with the locked unicode_names2: character() returns None for
+        // over-long names; its bound is checked for value correctness by C06.N2)
         if t.contains("whileoctet_content.len()<3{") && t.contains("letvalue=u32::from_str_radix(&octet_content,8).unwrap();char::from_u32(value).unwrap()") {
             cx.ok(rule, "D.octal: at most 3 octal digits (<= 0o777 = 511 < 0xD800) parsed into u32 and converted with char::from_u32");
         } else {
@@ -1102,7 +1154,7 @@ const SUMMARISED: &[(&str, &str, &[&str])] = &[
 /// listed guards (an enclosing `if` condition or match-arm pattern, compact text), which establishes it
 const PRECONDITIONED: &[(&str, &[&str], &str)] = &[
     ("lex_identifier", &["self.is_identifier_start(c)"], "window[0] starts an identifier, so `while self.is_identifier_continuation()` runs at least once (start ⊆ continuation, C01.I2)"),
-    ("lex_number", &["'0'..='9'", "letSome('0'..='9')=self.window[1]"], "window[0] is a decimal digit (or '.' followed by one): radix_run(10) / the radix prefix consumes"),
+    ("lex_number", &["'0'..='9'", "Some('0'..='9')"], "window[0] is a decimal digit (or '.' followed by one): radix_run(10) / the radix prefix consumes"),
     ("lex_and_emit_comment", &["'#'", "Some('#')"], "window[0] is '#', which lex_comment's loop consumes first"),
 ];
 
@@ -1318,7 +1370,7 @@ fn unsafe_inventory(cx: &mut Ctx) {
     }
     if let Ok(nl) = sm::load(&cx.repo, "vendored/src/source_location/newlines.rs") {
         let t = sm::tsx(&nl.file);
-        if t.contains("ifletSome(position)=memchr2(b'\\n',b'\\r',bytes){") && t.contains("unsafe{*bytes.get_unchecked(position)}") {
+        if t.contains("matchmemchr2(b'\\n',b'\\r',bytes){Some(position)=>{") && t.contains("unsafe{*bytes.get_unchecked(position)}") {
             cx.ok(rule, "find_newline: get_unchecked(position) with position = memchr2(.., bytes) on the same slice");
         } else {
             cx.fail(rule, &format!("{}/find_newline", rule), &nl.rel, "get_unchecked index is not the position memchr2 returned for the same slice");
